@@ -226,7 +226,6 @@ Fixpoint dedup (l : list rule) (acc : list rule) : list rule :=
 Definition klass_tok (k : option klass) : bytes :=
   match k with
   | None => dash
-  | Some KCloneUncounted => B "clone_uncounted"
   | Some KNameRulesLeak => B "name_rules_never_removed"
   end.
 
